@@ -332,7 +332,7 @@ func (ex *Exec) intrinsic(fn *ssa.Function, args []Value) Value {
 		ex.lockEvent("acquire", p)
 		st := ex.load(p, u32).(*Term)
 		if !ex.require(c.Eq(st, c.Const(32, 0))) {
-			panic(pathAbort{kind: "violation", msg: "Acquire on a lock that is already held: blocks forever (self-deadlock)"})
+			panic(pathAbort{kind: "monitor", msg: "Acquire on a lock that is already held: blocks forever (self-deadlock)"})
 		}
 		ex.store(p, u32, c.Const(32, 1))
 		return nil
@@ -575,12 +575,16 @@ func (ex *Exec) verifCall(fr *Frame, f *ssa.Function, cc *ssa.CallCommon, args [
 		panic(unsupported("Limit on unknown region " + label))
 	case "WatchLocked":
 		p := args[0].(Ptr)
-		lk := args[1].(Ptr)
-		if p.obj == nil {
-			return nil
+		n := args[1].(*Term)
+		lk := args[2].(Ptr)
+		if p.obj == nil || !p.off.IsConst() || !n.IsConst() {
+			panic(unsupported("WatchLocked needs a concrete address range"))
 		}
-		p.obj.watch = &watch{lock: lk, tag: p.obj.name}
-		ex.watched = append(ex.watched, p.obj)
+		if p.obj.watch == nil {
+			p.obj.watch = &watch{lock: lk, tag: p.obj.name}
+			ex.watched = append(ex.watched, p.obj)
+		}
+		p.obj.watch.ranges = append(p.obj.watch.ranges, [2]int64{int64(p.off.Val), int64(p.off.Val + n.Val)})
 		ex.lockWatch = p.obj.watch
 		return nil
 	case "Unwatch":
@@ -641,21 +645,21 @@ func (ex *Exec) checkWatch(o *Obj, off *Term, size int64) {
 		return
 	}
 	w := o.watch
-	// the lock word itself is accessed through the atomics/intrinsics only
+	c := ex.c
+	overlap := c.False()
+	end := c.Bin("bvadd", off, c.Const(64, uint64(size)))
+	for _, r := range w.ranges {
+		overlap = c.Or(overlap, c.And(c.Cmp("bvult", off, c.Const(64, uint64(r[1]))), c.Cmp("bvult", c.Const(64, uint64(r[0])), end)))
+	}
+	if overlap.IsFalse() {
+		return
+	}
 	saved := ex.lockWatch
 	ex.lockWatch = nil
 	defer func() { ex.lockWatch = saved }()
-	if o == w.lock.obj {
-		// access inside the lock word's own bytes is allowed
-		lo := w.lock.off
-		in := ex.c.And(ex.c.Cmp("bvule", lo, off), ex.c.Cmp("bvult", off, ex.c.Bin("bvadd", lo, ex.c.Const(64, 4))))
-		if in.IsTrue() {
-			return
-		}
-	}
 	st := ex.load(w.lock, types.Typ[types.Uint32]).(*Term)
-	held := ex.c.Eq(st, ex.c.Const(32, 1))
-	if !ex.branch(held) {
-		panic(pathAbort{kind: "violation", msg: "shared allocator state (" + w.tag + ") accessed without holding the lock"})
+	held := c.Eq(st, c.Const(32, 1))
+	if !ex.branch(c.Or(c.Not(overlap), held)) {
+		panic(pathAbort{kind: "monitor", msg: "shared allocator state (" + w.tag + ") accessed without holding the lock at " + ex.pos(ex.curPos)})
 	}
 }
